@@ -141,12 +141,12 @@ package scan
 //@                            when r.Err == nil && ferr == nil && x.Buf == buf && x.Err == nil -> continue
 //@   loop 0 row fill_c:    [recv in as (r, true) ; call NewSerializeBuffer() as (buf) ; call Fill(g.filler, buf, r) as (ferr) ; ctxdone] when r.Err == nil -> continue
 //@ func (*packetGenerator).Packets
-//@   props C07
+//@   props C07 C16 C01
 //@   entry row start: [go (*packetGenerator).Packets$1] -> exit
 
 // multi-generator: exactly numWorkers generator instances, all reading the same request channel, merged
 //@ func (*packetMultiGenerator).Packets
-//@   props C07
+//@   props C07 C16 C01
 //@   observe Packets, MergeBufferDataChan
 //@   requires g.numWorkers >= 0
 //@   loop 0 invariant bounds: 0 <= i && i <= g.numWorkers && len(workers) == g.numWorkers
@@ -163,11 +163,11 @@ package scan
 //@   loop 0 row forward: [recv c as (e, true) ; send out e] -> continue
 //@   loop 0 row fwd_c:   [recv c as (e, true) ; ctxdone ; call Done(_)] -> exit
 //@ func MergeBufferDataChan$2
-//@   props C07 C12
+//@   props C07 C12 C16 C01
 //@   observe (*sync.WaitGroup).Wait
 //@   entry row closer: [call Wait(_) ; close out] -> exit
 //@ func MergeBufferDataChan
-//@   props C07 C12
+//@   props C07 C12 C16 C01
 //@   observe (*sync.WaitGroup).Add
 //@   entry row setup: [call Add(_, len(channels))] -> loop 0
 //@   loop 0 row spawn:  [go MergeBufferDataChan$1] -> continue
@@ -175,31 +175,31 @@ package scan
 
 // packet source: a generator that fails to start yields exactly one error packet on a closed channel
 //@ func (*packetSource).Packets
-//@   props C07 C13
+//@   props C07 C13 C16 C12 C01
 //@   observe GenerateRequests, Packets
 //@   entry row generr: [call GenerateRequests(s.reqgen, ctx, r) as (reqs, gerr) ; send bind_c bind_x ; close bind_c2] when gerr != nil && c == c2 && ret == c && x.Err == gerr && x.Buf == nil -> exit
 //@   entry row ok:     [call GenerateRequests(s.reqgen, ctx, r) as (reqs, gerr) ; call Packets(s.pktgen, ctx, reqs) as (pk)] when gerr == nil && ret == pk -> exit
 
 // packet engine: the source feeds the sender, completion = the sender's done, both error streams are merged
 //@ func (*PacketEngine).Start
-//@   props C07
+//@   props C07 C16 C12 C01 C20
 //@   observe Packets, SendPackets, ReceivePackets, mergeErrChan
 //@   entry row wiring: [call Packets(e.src, ctx, r) as (pk) ; call SendPackets(e.snd, ctx, pk) as (done, errc1) ; call ReceivePackets(e.rcv, ctx) as (errc2) ; call mergeErrChan(ctx, bind_cs) as (m)]
 //@                       when ret0 == done && ret1 == m && len(cs) == 2 && cs[0] == errc1 && cs[1] == errc2 -> exit
 
 // error merger (same shape as the packet merger; the send is guarded)
 //@ func mergeErrChan$1
-//@   props C07 C08 C12
+//@   props C07 C08 C12 C20 C16
 //@   observe (*sync.WaitGroup).Done
 //@   loop 0 row cancel:  [ctxdone ; call Done(_)] -> exit
 //@   loop 0 row closed:  [recv c as (e, false) ; call Done(_)] -> exit
 //@   loop 0 row forward: [recv c as (e, true) ; send? out e] -> continue
 //@ func mergeErrChan$2
-//@   props C07 C08 C12
+//@   props C07 C08 C12 C20 C16
 //@   observe (*sync.WaitGroup).Wait
 //@   entry row closer: [call Wait(_) ; close out] -> exit
 //@ func mergeErrChan
-//@   props C07 C08 C12
+//@   props C07 C08 C12 C20 C16
 //@   observe (*sync.WaitGroup).Add
 //@   entry row setup: [call Add(_, len(channels))] -> loop 0
 //@   loop 0 row spawn:  [go mergeErrChan$1] -> continue
@@ -221,13 +221,13 @@ package scan
 
 // Start: generator failure -> one error, both channels closed; otherwise the coordinator goroutine
 //@ func (*GenericEngine).Start
-//@   props C08 C12
+//@   props C08 C12 C16
 //@   observe GenerateRequests
 //@   entry row generr: [call GenerateRequests(e.reqgen, ctx, r) as (reqs, gerr) ; send bind_ec gerr ; close bind_ec2 ; close bind_dc] when gerr != nil && ec == ec2 && ret0 == dc && ret1 == ec -> exit
 //@   entry row start:  [call GenerateRequests(e.reqgen, ctx, r) as (reqs, gerr) ; go (*GenericEngine).Start$1] when gerr == nil -> exit
 // coordinator: workerCount workers on the same request channel; completion only after all of them returned
 //@ func (*GenericEngine).Start$1
-//@   props C08 C12
+//@   props C08 C12 C16
 //@   observe (*sync.WaitGroup).Add, (*sync.WaitGroup).Wait
 //@   loop 0 invariant bounds: 1 <= i && (e.workerCount >= 0 ==> i <= e.workerCount + 1) && (e.workerCount < 0 ==> i == 1)
 //@   loop 0 row spawn: [call Add(_, 1) ; go (*GenericEngine).worker(e, ctx, _, requests, errc)] -> continue
@@ -235,10 +235,10 @@ package scan
 
 // result hand-off: Put is a guarded send on the internal channel; the copier forwards each element once
 //@ func (*resultChan).Put
-//@   props C08 C12
+//@   props C08 C12 C14
 //@   entry row put: [send? c.internalResults r] -> exit
 //@ func NewResultChan$1
-//@   props C08 C12
+//@   props C08 C12 C14
 //@   loop 0 row cancel:  [ctxdone ; close results] -> exit
 //@   loop 0 row forward: [recv internalResults as (v, _) ; send? results v] -> loop 0
 //@   loop 0 row fwd_c:   [recv internalResults as (v, _) ; ctxdone ; close results] -> exit
@@ -289,7 +289,7 @@ package scan
 //@   ensures ret == nil ==> v.IP == ite(hasip(data), jsonip(data), old(v.IP)) && v.Port == ite(hasport(data), jsonport(data), old(v.Port))
 
 //@ func (*fileIPPortGenerator).GenerateRequests$1
-//@   props C13 C01 C12
+//@   props C13 C01 C12 C07
 //@   observe (*bufio.Scanner).Scan, (*bufio.Scanner).Bytes, (*bufio.Scanner).Err, UnmarshalJSON, net.ParseIP, Close
 //@   loop 0 row eof:     [call Scan(_) as (more) ; call Err(_) as (e) ; call Close(_) ; close out] when !more && e == nil -> exit
 //@   loop 0 row eof_err: [call Scan(_) as (more) ; call Err(_) as (e) ; send? out bind_x ; call Close(_) ; close out] when !more && e != nil && x.Err == e -> exit
@@ -305,7 +305,7 @@ package scan
 
 // address file: same per-line rule; any bad line ends the stream after its one error
 //@ func (*fileIPGenerator).IPs$1
-//@   props C13 C01 C12
+//@   props C13 C01 C12 C07
 //@   observe (*bufio.Scanner).Scan, (*bufio.Scanner).Bytes, (*bufio.Scanner).Err, UnmarshalJSON, net.ParseIP, Close
 //@   loop 0 row eof:     [call Scan(_) as (more) ; call Err(_) as (e) ; call Close(_) ; close out] when !more && e == nil -> exit
 //@   loop 0 row eof_err: [call Scan(_) as (more) ; call Err(_) as (e) ; send? out bind_x ; call Close(_) ; close out]
@@ -321,7 +321,7 @@ package scan
 // error becomes the request's error; an excluded address is dropped; everything else passes unchanged.
 // emitted <=> not excluded (C02).
 //@ func (*filterIPRequestGenerator).GenerateRequests$1
-//@   props C13 C02 C01 C12
+//@   props C13 C02 C01 C12 C07
 //@   observe Contains
 //@   loop 0 row cancel:   [ctxdone ; close out] -> exit
 //@   loop 0 row closed:   [recv requests as (rq, false) ; close out] -> exit
@@ -399,7 +399,7 @@ package scan
 // carrying that address, that port and the range's source addresses; then the address generator is started again
 // exactly once. (ports x addresses, each pair once, by the fold schema over the two loops.)
 //@ func (*ipPortGenerator).GenerateRequests$1
-//@   props C01 C12
+//@   props C01 C12 C13 C07
 //@   observe GetPort, GetIP, IPs
 //@   loop 0 row closed:   [recv ports as (p, false) ; close out] -> exit
 //@   loop 0 row porterr:  [recv ports as (p, true) ; call GetPort(p) as (port, e) ; send? out bind_x] when e != nil && x.Err == e -> continue
@@ -419,7 +419,7 @@ package scan
 
 // port-less scans (arp, icmp): one request per address of the single pass
 //@ func (*ipRequestGenerator).GenerateRequests$1
-//@   props C01 C12
+//@   props C01 C12 C13 C07
 //@   observe GetIP
 //@   loop 0 row closed:  [recv ips as (a, false) ; close out] -> exit
 //@   loop 0 row request: [recv ips as (a, true) ; call GetIP(a) as (dstip, e) ; send? out bind_x] when x.DstIP == dstip && x.Err == e && x.SrcIP == r.SrcIP && x.SrcMAC == r.SrcMAC -> continue
